@@ -105,10 +105,12 @@ def run(ctx):
         for rep in text.split("WARNING: DATA RACE")[1:]:
             races += 1
             # only the two racing access stacks (before the "Goroutine ... created at" sections) count,
-            # and only if one of them is inside the library (/repo); races between harness goroutines
+            # and only if one of them is inside the library (package path gonum.org/v1/gonum/..., not the harness); races between harness goroutines
             # would be a harness bug, reported as undecided
             acc = rep.split("Goroutine ")[0]
-            fr = re.findall(r"\n\s+(gonum\.org/v1/gonum/[\w./]+)\.([\w.()*]+)\(\)\n\s+(/repo/[^\s]+)", acc)
+            fr = re.findall(r"\n\s+(gonum\.org/v1/gonum/[\w./]+)\.([\w.()*]+)\(\)\n\s+(/[^\s]+)", acc)
+            # frames of the harness module itself (gonum.org/v1/gonum/verifharness/...) are not library frames
+            fr = [x for x in fr if not x[0].startswith("gonum.org/v1/gonum/verifharness")]
             if not fr:
                 from vlib import Undecided
                 raise Undecided("race detector report without a library frame (harness race?):\n" + rep[:1500])
